@@ -53,13 +53,14 @@ type VC struct {
 	defs      map[string]string // defined name -> term
 	globalsDone map[string]bool
 	skipUndischarged bool // reach script: leave out the goals of obligations that were not discharged
+	writeCount map[string]int // number of updates per heap key (static bound for position-wise stream comparison)
 	noQuant   bool // lock-discipline VCs: quantified background axioms are dropped (weakening only)
 }
 
 func NewVC(prog *Program, mode Mode, name string) *VC {
 	vc := &VC{prog: prog, mode: mode, name: name, decls: map[string]string{}, strlits: map[string]string{},
 		heapSorts: map[string]string{}, typeIDs: map[string]int{}, onceAx: map[string]bool{}, assumptions: map[string]bool{},
-		oblCount: map[string]int{}, inlined: map[string]bool{}, usedContracts: map[string]bool{}, strOfArr: map[string]string{}, defs: map[string]string{}, globalsDone: map[string]bool{}}
+		oblCount: map[string]int{}, inlined: map[string]bool{}, usedContracts: map[string]bool{}, strOfArr: map[string]string{}, defs: map[string]string{}, globalsDone: map[string]bool{}, writeCount: map[string]int{}}
 	vc.declare("Str", "(declare-sort Str 0)")
 	vc.declare("gs.empty", "(declare-const gs.empty Str)")
 	vc.declare("gs.len", "(declare-fun gs.len (Str) "+vc.idxSort()+")")
@@ -231,6 +232,7 @@ func (vc *VC) hget(st *State, key, sort string) string {
 }
 
 func (vc *VC) hset(st *State, key, sort, term string) {
+	vc.writeCount[key]++
 	vc.hget(st, key, sort) // ensure declared
 	st.heap[key] = vc.define(key, sort, term)
 }
